@@ -18,7 +18,7 @@ def voxelize(obj, **kwargs):
 
     Keyword Arguments:
         * ``grid_size``: size of the voxel grid. *Default: (8, 8, 8)*
-        * ``padding``: voxel padding for in-outs finding. *Default: 10e-8*
+        * ``padding``: voxel padding for in-outs finding. *Default: 10e-8 (times the size of the shape if it is less than 1)*
         * ``use_cubes``: use cube voxels instead of cuboid ones. *Default: False*
         * ``num_procs``: number of concurrent processes for voxelization. *Default: 1*
 
@@ -49,8 +49,14 @@ def voxelize(obj, **kwargs):
         grid_temp = vxl.generate_voxel_grid(o.bbox, grid_size, use_cubes=use_cubes)
         args = [grid_temp, o.evalpts]
 
+        # The default padding is relative to the size of a shape which is smaller than 1 (a padding of 10e-8 would reach
+        # into the neighbouring voxels of a model of size 10e-6)
+        kwargs_o = dict(kwargs)
+        if 'tol' not in kwargs_o:
+            kwargs_o['tol'] = 10e-8 * min(1.0, max(bmax - bmin for bmin, bmax in zip(*o.bbox)))
+
         # Find in-outs
-        filled_temp = vxl.find_inouts_mp(*args, **kwargs) if num_procs > 1 else vxl.find_inouts_st(*args, **kwargs)
+        filled_temp = vxl.find_inouts_mp(*args, **kwargs_o) if num_procs > 1 else vxl.find_inouts_st(*args, **kwargs_o)
 
         # Add to result arrays
         grid += grid_temp
